@@ -302,3 +302,151 @@ Print Assumptions c11_legalize_real_order_fixpoint.
 Print Assumptions c11_legalize_real_order_idempotent.
 Print Assumptions c11_legalize_real_order_twice.
 Print Assumptions c11_real_order_refuted.
+
+(* ================================================================== *)
+(* The BINARY32 key.  CellOrderFloat.v models computeCellOrder as the C++ evaluates it: the double parameters
+   narrowed to float at the call (f_of_d), the ints converted to float, every product and every sum one
+   correctly rounded binary32 operation of Flocq (round to nearest even), std::pair<float,int>::operator< on
+   the results, the stable sort.  cell_order_f p c is that order for the double parameters p, legalize_float p c
+   = legalize_circuit c (cell_order_f p c) the closed model with it (no rational key anywhere).
+   Domain (CellOrderFloat.v): order_params_ok p = finite doubles, 0 <= orderingWidth <= 1 (F10 outside),
+   |orderingY| <= 2 (LegalizationParameters::check accepts [-0.2, 0.2]), |orderingHeight| <= 4 (check accepts
+   EVERY value: forced hypothesis, refuted at 8 below); coords_small c = |x|, |y|, placed width, placed height
+   of every movable cell <= 2^20 (the quantifier of C11 says |v| < 2^20).
+   Axioms: the four of Coq.Reals / Flocq (ClassicalDedekindReals.sig_forall_dec, sig_not_dec,
+   FunctionalExtensionality.functional_extensionality_dep, Classical_Prop.classic), no other.
+   Tie: checks/c11_order.py float_tie compares cell_order_f (vm_compute) with the real computeCellOrder on
+   non-dyadic parameters. *)
+From Coq Require Import Reals.
+From Flocq Require Import Core BinarySingleNaN.
+Require Import CV.SpreadFloat CV.SpreadFloatProofs CV.CellOrderFloat CV.CellOrderFloatProofs.
+Local Open Scope Z_scope.
+
+(* [F] the four roundings of the key cost at most 15/32 < 1/2: key_R = rnd(rnd(rnd(x + rnd(ww*w)) + t3) + t4) against
+   x + ww*w + t3 + t4, for |x|, |w| <= 2^20, 0 <= ww <= 1, |t3| <= 2^21, |t4| <= 2^22 (t3, t4: the two float
+   products weightY*y and weightHeight*h, the SAME numbers for two cells of one row); all partial results bounded *)
+Theorem c11_float_key_rounding_error : forall (ww t3 t4 : R) (x w : Z),
+  (0 <= ww <= 1)%R -> Z.abs x <= 2 ^ 20 -> Z.abs w <= 2 ^ 20 ->
+  (Rabs t3 <= bpow radix2 21)%R -> (Rabs t4 <= bpow radix2 22)%R ->
+  (Rabs (key_R ww t3 t4 x w - key_ref ww t3 t4 x w) <= key_eps)%R /\
+  (Rabs (rnd32 (ww * IZR w)) <= bpow radix2 20)%R /\
+  (Rabs (rnd32 (IZR x + rnd32 (ww * IZR w))) <= bpow radix2 21)%R /\
+  (Rabs (rnd32 (rnd32 (IZR x + rnd32 (ww * IZR w)) + t3)) <= bpow radix2 22)%R /\
+  (Rabs (key_R ww t3 t4 x w) <= bpow radix2 23)%R.
+Proof. exact key_R_err. Qed.
+
+(* [F] the Flocq evaluation of the C++ expression on a small cell is FINITE and equals key_R (weights: finite floats,
+   weightX = 1, 0 <= weightWidth <= 1, |weightY| <= 2, |weightHeight| <= 4) *)
+Theorem c11_float_key_correct : forall (wx ww wy wh : f32) (c : Legalizer.cell),
+  is_finite wx = true -> is_finite ww = true -> is_finite wy = true -> is_finite wh = true ->
+  B2R wx = 1%R -> (0 <= B2R ww <= 1)%R -> (Rabs (B2R wy) <= 2)%R -> (Rabs (B2R wh) <= 4)%R -> small_cell c ->
+  let t3 := rnd32 (B2R wy * IZR (Legalizer.cty c)) in
+  let t4 := rnd32 (B2R wh * IZR (Legalizer.ch c)) in
+  is_finite (cell_key_f wx ww wy wh c) = true /\
+  B2R (cell_key_f wx ww wy wh c) = key_R (B2R ww) t3 t4 (Legalizer.ctx c) (Legalizer.cw c) /\
+  (Rabs t3 <= bpow radix2 21)%R /\ (Rabs t4 <= bpow radix2 22)%R.
+Proof. exact cell_key_f_correct. Qed.
+
+(* [F] two cells of one row (same y, same placed height, widths >= 1, the left one ends before the right one
+   starts): the float keys are finite and STRICTLY ordered, by at least 1/16 -- the index never decides *)
+Theorem c11_float_key_strict_in_row : forall (wx ww wy wh : f32) (ci cj : Legalizer.cell),
+  is_finite wx = true -> is_finite ww = true -> is_finite wy = true -> is_finite wh = true ->
+  B2R wx = 1%R -> (0 <= B2R ww <= 1)%R -> (Rabs (B2R wy) <= 2)%R -> (Rabs (B2R wh) <= 4)%R ->
+  small_cell ci -> small_cell cj -> 0 < Legalizer.cw ci -> 0 < Legalizer.cw cj ->
+  Legalizer.ctx ci + Legalizer.cw ci <= Legalizer.ctx cj -> Legalizer.cty ci = Legalizer.cty cj -> Legalizer.ch ci = Legalizer.ch cj ->
+  is_finite (cell_key_f wx ww wy wh ci) = true /\ is_finite (cell_key_f wx ww wy wh cj) = true /\
+  (B2R (cell_key_f wx ww wy wh ci) + / 16 <= B2R (cell_key_f wx ww wy wh cj))%R.
+Proof. exact cell_key_f_lt_in_row. Qed.
+
+(* [F, ALL float keys: NaN and infinities included] the binary32 computeCellOrder returns a permutation of 0..n-1 *)
+Theorem c11_float_cell_order_permutation : forall wx ww wy wh cells,
+  Permutation (compute_cell_order_f wx ww wy wh cells) (seq 0 (length cells)).
+Proof. exact compute_cell_order_f_perm. Qed.
+
+(* [F] when every key is finite, a strictly smaller float key comes first *)
+Theorem c11_float_cell_order_sorted : forall wx ww wy wh cells a b i j ci cj,
+  (forall c, In c cells -> is_finite (cell_key_f wx ww wy wh c) = true) ->
+  nth_error (compute_cell_order_f wx ww wy wh cells) a = Some i ->
+  nth_error (compute_cell_order_f wx ww wy wh cells) b = Some j ->
+  nth_error cells i = Some ci -> nth_error cells j = Some cj ->
+  (B2R (cell_key_f wx ww wy wh ci) < B2R (cell_key_f wx ww wy wh cj))%R -> (a < b)%nat.
+Proof. exact compute_cell_order_f_sorted. Qed.
+
+(* [F] on the domain every key Legalizer::run computes is finite (no NaN, no infinity: the sort is well defined) *)
+Theorem c11_float_keys_finite : forall p c, order_params_ok p -> coords_small c ->
+  forall k, In k (Legalizer.leg_cells c) ->
+    is_finite (cell_key_f (f_of_d d_one) (f_of_d (opd_w p)) (f_of_d (opd_y p)) (f_of_d (opd_h p)) k) = true.
+Proof. exact cell_order_f_keys_finite. Qed.
+
+(* [F] the hypothesis order_left_to_right holds for the BINARY32 order on every row-high design of the domain *)
+Theorem c11_float_order_left_to_right : forall p c rh,
+  rowhigh_design c rh -> order_params_ok p -> coords_small c -> order_left_to_right c (cell_order_f p c).
+Proof. exact cell_order_f_left_to_right. Qed.
+
+(* [F on rowhigh_design, order_params_ok, coords_small] THE property with the float order: no cell of a legal
+   placement on admitted rows is moved *)
+Theorem c11_legalize_float_order_fixpoint : forall p c rh,
+  rowhigh_design c rh -> legal c -> polarity_admits c -> order_params_ok p -> coords_small c ->
+  exists c', legalize_float p c = LegOk c' /\ rows c' = rows c /\ Forall2 (kept c) (cells c) (cells c').
+Proof. exact legalize_float_fixpoint. Qed.
+
+(* [F, same domain] ... and the circuit is returned unchanged when the orientations are the prescribed ones *)
+Theorem c11_legalize_float_order_idempotent : forall p c rh,
+  rowhigh_design c rh -> legal c -> polarity_admits c -> order_params_ok p -> coords_small c ->
+  (forall k r, In k (movable c) -> In r (rows c) -> under r k -> seg_orientation (leg_cell_of k) r = c_o k) ->
+  legalize_float p c = LegOk c.
+Proof. exact legalize_float_idempotent. Qed.
+
+(* [F] legalizing twice = legalizing once, both runs with their own binary32 order: the first with ANY double
+   parameters p0 (NaN included) on ANY row-high design, the second with parameters of the domain on a result
+   whose coordinates are in the domain *)
+Theorem c11_legalize_float_order_twice : forall p0 p c rh c1,
+  rowhigh_design c rh -> legalize_float p0 c = LegOk c1 -> order_params_ok p -> coords_small c1 ->
+  legalize_float p c1 = LegOk c1.
+Proof. exact legalize_float_twice. Qed.
+
+(* [R] the bound on orderingHeight is forced.  LegalizationParameters::check accepts every orderingHeight; with
+   orderingHeight = 8, orderingWidth = 1/2, orderingY = 0 and a row 2^20 - 1 high, two unit-width cells at x = 10
+   (index 0) and x = 9 (index 1) get the SAME finite float key 8388610 (10.5 + 8388600 and 9.5 + 8388600 are both
+   ties at ulp 1 and round to even); the index decides, the right cell is handled first and the legalizer moves the
+   other one from 9 to 11, although the circuit satisfies every hypothesis of c11_legalize_float_order_idempotent
+   about the circuit and the coordinates are <= 2^20.  Replayed on the C++ (corpus/C11/cases.txt, OF line). *)
+Theorem c11_float_order_refuted :
+  exists c p c', fixpoint_hyps c 1048575 /\ coords_small c /\
+    is_finite (opd_w p) = true /\ is_finite (opd_y p) = true /\ is_finite (opd_h p) = true /\
+    (0 <= B2R (opd_w p) <= 1)%R /\ B2R (opd_y p) = 0%R /\ B2R (opd_h p) = 8%R /\
+    map B2SF (map (cell_key_f (f_of_d d_one) (f_of_d (opd_w p)) (f_of_d (opd_y p)) (f_of_d (opd_h p))) (leg_cells c))
+      = [SpecFloat.S754_finite false 8388610 0; SpecFloat.S754_finite false 8388610 0] /\
+    map c_x (cells c) = [10; 9] /\ cell_order_f p c = [0%nat; 1%nat] /\
+    legalize_float p c = LegOk c' /\ map c_x (cells c') = [10; 11].
+Proof. exact legalize_float_order_refuted. Qed.
+
+(* non-vacuity: the DEFAULT parameters (orderingWidth = (double)1/(double)5 = 0.2, narrowed to the float
+   13421773 * 2^-26 -- not exact --, orderingY 0, orderingHeight -1) are in the domain, as are the circuits above;
+   the float order of ex_c11 is [0;1;2] and the closed float model returns the circuit; ex_c11_bad is moved by the
+   first run and returned by the second *)
+Example c11_float_order_nonvacuous :
+  order_params_ok pd_default /\ coords_small ex_c11 /\
+  B2SF (f_of_d (opd_w pd_default)) = SpecFloat.S754_finite false 13421773 (-26) /\
+  cell_order_f pd_default ex_c11 = [0%nat; 1%nat; 2%nat] /\ legalize_float pd_default ex_c11 = LegOk ex_c11 /\
+  (exists c1, legalize_float pd_default ex_c11_bad = LegOk c1 /\ c1 <> ex_c11_bad /\ coords_small c1 /\
+              legalize_float pd_default c1 = LegOk c1).
+Proof.
+  split; [apply order_params_okb_sound; vm_compute; reflexivity|].
+  split; [apply coords_smallb_sound; vm_compute; reflexivity|].
+  split; [vm_compute; reflexivity|]. split; [vm_compute; reflexivity|]. split; [vm_compute; reflexivity|].
+  eexists. split; [vm_compute; reflexivity|]. split; [discriminate|].
+  split; [apply coords_smallb_sound; vm_compute; reflexivity|vm_compute; reflexivity].
+Qed.
+
+Print Assumptions c11_float_key_rounding_error.
+Print Assumptions c11_float_key_correct.
+Print Assumptions c11_float_key_strict_in_row.
+Print Assumptions c11_float_cell_order_permutation.
+Print Assumptions c11_float_cell_order_sorted.
+Print Assumptions c11_float_keys_finite.
+Print Assumptions c11_float_order_left_to_right.
+Print Assumptions c11_legalize_float_order_fixpoint.
+Print Assumptions c11_legalize_float_order_idempotent.
+Print Assumptions c11_legalize_float_order_twice.
+Print Assumptions c11_float_order_refuted.
